@@ -409,7 +409,7 @@ def run_case(dd, case, acc, workdir, counts, muts=None):
 def shard(ctx, acc):
     dd = env.load()
     env.set_options(dd, ['in.smt2', 'out.smt2', '/bin/true'])
-    total = 320 if ctx.quick else 10000
+    total = 320 if ctx.quick else 5000
     counts = {}
 
     muts = make_instances(dd)
